@@ -11,6 +11,7 @@ typedef struct {
   int off[VR_NARR];		/* byte offset of element 0 from a 64-byte boundary */
   int stride_extra;		/* extra bytes between rows (2-D) */
   int pchoice;			/* which value of each parameter's domain */
+  unsigned flip;		/* bit i: array i is walked bottom-up (row 0 is the last row in memory, negative stride) */
   uint64_t vbase;		/* rotation of the value table */
 } VRunCfg;
 
@@ -156,6 +157,10 @@ static void vr_arena_alloc (VArena * A, OrcProgram * p, const VRunCfg * c)
     A->a[i].data += front * A->sh.esize[i];
     /* rowbytes as seen from element 0 */
     A->a[i].rowbytes = (size_t) A->sh.need[i] * A->sh.esize[i];
+    if ((c->flip >> i & 1) && c->m > 1) {
+      A->a[i].data += (long) (c->m - 1) * A->a[i].stride;
+      A->a[i].stride = -A->a[i].stride;
+    }
   }
 }
 
@@ -297,9 +302,13 @@ static int vr_compare (VArena * X, VArena * R, const VRunCfg * c, OrcExecutor * 
       for (b = lo; b < hi; b++) {
         if (x->data[b] == q->data[b]) continue;
         /* inside an entitled dest row? */
-        if (X->sh.isdest[i] && b >= 0) {
-          long row = x->stride ? b / x->stride : 0, col = x->stride ? b % x->stride : b;
-          if (row < rows && col < (long) c->n * x->esize) continue;	/* already compared */
+        if (X->sh.isdest[i]) {
+          int rr, ent = 0;
+          for (rr = 0; rr < (rows > 0 ? rows : 0) && !ent; rr++) {
+            long st = (long) rr * x->stride;
+            if (b >= st && b < st + (long) c->n * x->esize) ent = 1;
+          }
+          if (ent) continue;	/* already compared */
         }
         snprintf (msg, cap, "%s array %s: byte at offset %ld from element 0 changed outside elements 0..n-1 (0x%02x, reference 0x%02x)",
             X->sh.isdest[i] ? "dest" : "source", ex_x->program ? ex_x->program->vars[i].name : "?", b, x->data[b], q->data[b]);
